@@ -79,7 +79,7 @@ def SpecState.argExprs (s : SpecState Val Op) : List (Arg Val) → Option (List 
 /-- what the property allows a statement to produce -/
 inductive Expect (Val Err Op : Type) where
   | created
-  | createOrErr (r : Except Err Val) (attr : Option Op)   -- creation reads the node: fails iff that read fails (or the attribute is missing)
+  | createOrErr (r : Except Err Val) (attr : Option Op)   -- creation may read the node: it may fail only as that read fails (or the attribute is missing)
   | watching
   | read (r : Except Err Val)
   | set (before after : List (Except Err Val))            -- per watch: value before / after the update
@@ -145,7 +145,8 @@ def meets (S : Sem Val Err Op) : Expect Val Err Op → Outcome Val Err → Optio
   | .watching, _ => some "watch registration failed"
   | .createOrErr (.error e) _, .createErr e' =>
     if e == e' then none else some "building on a failing expression raised another exception class"
-  | .createOrErr (.error _) _, _ => some "building on a failing expression did not raise its exception"
+  | .createOrErr (.error _) _, .created => none     -- building lazily on a failing expression is fine too
+  | .createOrErr (.error _) _, _ => some "unexpected outcome of a creation"
   | .createOrErr (.ok v) attr, o =>
     let missing := match attr with | some a => !S.hasAttr v a | none => false
     match o with
